@@ -543,7 +543,7 @@ func c01ConfigSpace(tier string) *core.Space {
 		"IgnoreErrorTypes":      {[]int{}, []int{4}, []int{-1, 99}, []string{"4"}},
 		"IgnoreFileOrFloder":    {[]string{"a.lua"}, []string{"("}, []string{"sub/"}, 2},
 		"IgnoreFileErr":         {[]string{"a.lua"}, []string{"("}, []string{"[a-"}, 2},
-		"IgnoreFileErrTypes":    {[]interface{}{map[string]interface{}{"File": "a.lua", "Types": []int{4}}}, []interface{}{map[string]interface{}{"File": "(", "Types": []int{4}}}, []interface{}{map[string]interface{}{"File": 1}}, "x"},
+		"IgnoreFileErrTypes":    {[]interface{}{map[string]interface{}{"File": "a.lua", "Types": []int{4}}}, []interface{}{map[string]interface{}{"File": "(", "Types": []int{4}}}, []interface{}{map[string]interface{}{"File": "*_gen.lua", "Types": []int{4}}}, []interface{}{map[string]interface{}{"File": 1}}, "x"},
 		"IgnoreLocalNoUseVars":  {[]string{"x"}, 1},
 		"ProtocolVars":          {[]string{"c2s"}, 1},
 		"ProtocolPreIngoreFlag": {0, 1, "1"},
@@ -564,6 +564,14 @@ func c01ConfigSpace(tier string) *core.Space {
 	for _, n := range names {
 		for _, v := range fields[n] {
 			cases = append(cases, cfg{map[string]interface{}{n: v}})
+			if n != "ShowWarnFlag" {
+				// the same deviation with warnings shown and an entry file: ignore rules are then consulted for real
+				// diagnostics and the project-wide pass runs
+				cases = append(cases, cfg{map[string]interface{}{n: v, "ShowWarnFlag": 1}})
+				if n != "ProjectFiles" {
+					cases = append(cases, cfg{map[string]interface{}{n: v, "ShowWarnFlag": 1, "ProjectFiles": []string{"a.lua"}}})
+				}
+			}
 		}
 	}
 	if tier == "thorough" {
@@ -598,7 +606,9 @@ func c01ConfigSpace(tier string) *core.Space {
 			r.States++
 			r.Nontrivial++
 			vrt.TakeRecovered()
-			files := map[string]string{"luahelper.json": txt, "a.lua": "local x = 1\nprint(g, x)\nlocal m = require(\"sub.b\")\n", "sub/b.lua": "g = 1\nreturn {}\n", "other/o.lua": "---@class OC\n"}
+			// a.lua and sub/b.lua require each other (a cycle the project-wide pass must survive); a.lua carries diagnostics
+			files := map[string]string{"luahelper.json": txt, "a.lua": "local x = 1\nprint(g, x)\nlocal m = require(\"sub.b\")\nlocal unused = gundefined\n",
+				"sub/b.lua": "g = 1\nlocal back = require(\"a\")\nreturn {back}\n", "other/o.lua": "---@class OC\n"}
 			root := drv.NewWorkspace(files)
 			defer drv.RemoveWorkspace(root)
 			fail := func(sig string, det map[string]interface{}) {
